@@ -172,17 +172,14 @@ func (ch *Channel) runWriter(writerTerminate chan struct{}) error {
 		select {
 		case what := <-ch.chWrite:
 			switch wh := what.(type) {
+			// errors are not fatal: an item that cannot be encoded for this channel,
+			// or that the transport refuses, is discarded and the writer keeps
+			// serving the following ones. A broken transport is detected by the reader.
 			case message.Message:
-				err := ch.streamWriter.Write(wh)
-				if err != nil {
-					return err
-				}
+				ch.streamWriter.Write(wh) //nolint:errcheck
 
 			case frame.Frame:
-				err := ch.frameWriter.Write(wh)
-				if err != nil {
-					return err
-				}
+				ch.frameWriter.Write(wh) //nolint:errcheck
 			}
 
 		case <-writerTerminate:
